@@ -6,6 +6,10 @@ pub mod routing;
 pub mod trap;
 
 pub mod c01;
+pub mod c02;
+pub mod c03;
+pub mod c13;
+pub mod childproc;
 
 use report::Report;
 
@@ -27,6 +31,9 @@ pub fn dispatch(prop: &str, tier: &str, seed: u64, only: Option<(String, u64)>) 
     rep.only = only;
     match prop {
         "C01" => c01::run(&mut rep),
+        "C02" => c02::run(&mut rep),
+        "C03" => c03::run(&mut rep),
+        "C13" => c13::run(&mut rep),
         _ => {
             eprintln!("unknown property {}", prop);
             return 2;
@@ -46,6 +53,11 @@ pub fn dispatch(prop: &str, tier: &str, seed: u64, only: Option<(String, u64)>) 
 }
 
 pub fn child(args: &[String]) -> i32 {
-    let _ = args;
-    2
+    if args.is_empty() {
+        return 2;
+    }
+    match args[0].as_str() {
+        "c02" => c02::child_main(&args[1..]),
+        _ => 2,
+    }
 }
